@@ -198,7 +198,10 @@ Definition eval_effects (fl : flags) (dbefore : bool) (views : list pkg) (real :
               (* a load error leaves everything as it was *)
               && (if String.eqb ro "loaderr" then nats_eqb r_touched [] && Bool.eqb r_dafter dbefore else true)
               (* the "unreachable" panic *)
-              && negb (String.eqb ro "crash") in
+              && negb (String.eqb ro "crash")
+              (* exactly the calls renamed by the naming pass are substituted, by their new
+                 names (compared when the run ended the way the naming pass says) *)
+              && (if String.eqb ro (outcome_sym out) then names2_eqb r_names m_names else true) in
             {| v_known := true; v_model_ok := sexp_eqb model real; v_spec_ok := spec;
                v_guard := match out with OutOfViews => false | _ => true end;
                v_model := model; v_tag := tag |}
